@@ -188,3 +188,15 @@ check('C12',
       'replace with $0 is the identity, analyze-string parts concatenate to the input).',
       'reference mc/models/xsdregex.py (the re module is not used by the oracle); constructs on which XSD 1.0/1.1 or XML editions disagree are not judged: hyphen in the middle of a class, \\i \\c outside Latin, negated classes and category escapes under the i flag, unknown block names, bare braces, (?: with the 2.0 parser',
       'DESIGN.md section 3 C12')
+check('C17',
+      'bounded-exhaustive enumeration of JSON values, JSON texts and XML trees through serialise/parse round trips with an independent JSON parser and an own tree comparison',
+      'JSON values of depth <= 2 (thorough 3) over 27 leaves (strings with every escape that is an XML character, DEL, NEL, U+2028, non-ASCII, astral, a literal '
+      'backslash-u, whitespace-only; booleans; null; integers incl. 20 digits; doubles incl. exponents and -0; decimals with up to 13 digits) and 4 keys incl. the empty '
+      'key and a key with a newline, built as XDM values: serialize(v, json) must be accepted by Python json with the same meaning (integers and decimals exactly, '
+      'doubles as doubles), parse-json of it must equal the model after conversion and be deep-equal to v; a failing container is minimised to the smallest failing '
+      'member. JSON texts (compact and indented forms of the values + 30 hand-written texts: escapes, surrogate pairs, U+0000, number forms, nesting, whitespace): '
+      'parse-json has the meaning Python json gives (non-XML characters replaced by U+FFFD) and xml-to-json(json-to-xml(t)) denotes the same value. XML: every '
+      'generated tree up to 4 (5) nodes x 5 profiles (attributes, mixed text, comments/PIs, namespaces) x {element, document} x {xml.etree, lxml}: serialize(.) is '
+      're-parsed by lxml and compared with the generator description, and deep-equal(parse-xml(serialize(.)), .) holds.',
+      'numbers that went through xs:double (parse-json, json-to-xml) are compared as doubles; key order and namespace prefixes are not compared',
+      'DESIGN.md section 3 C17')
